@@ -20,7 +20,7 @@
 
 namespace vomp {
 
-struct Execution { std::vector<Point> points; std::string outcome; bool deadlock = false, diverged = false, overflow = false, horizon = false; std::vector<int> choices() const { std::vector<int> c; for (auto& p : points) c.push_back(p.choice); return c; } };
+struct Execution { std::vector<Point> points; std::string outcome; std::string races;   /* lockset detector reports of this execution, one per line (lset builds only) */ bool deadlock = false, diverged = false, overflow = false, horizon = false; std::vector<int> choices() const { std::vector<int> c; for (auto& p : points) c.push_back(p.choice); return c; } };
 
 struct Explorer {
     int team = 2, bound = 2; long max_executions = 2000000; double deadline_s = 1e9;
@@ -33,6 +33,7 @@ struct Explorer {
     Execution run(const std::vector<int>& prefix) {
         set_mode(MODE_EXPLORE, team); set_prefix(prefix.data(), (int)prefix.size()); begin_execution();
         Execution x; x.outcome = scenario();
+        if (lset_drain) { static char buf[16384]; buf[0] = 0; if (lset_drain(buf, sizeof buf) > 0) x.races = buf; }
         const Trace& t = trace(); x.points.assign(t.p, t.p + t.n); x.deadlock = deadlocked(); x.diverged = diverged(); x.overflow = t.overflow; x.horizon = t.horizon_hit;
         set_mode(MODE_SERIAL, 1); set_prefix(nullptr, 0);
         executions++; points += t.n; for (int i = 0; i < t.n; i++) if (t.p[i].choice != 0) { with_switch++; break; } max_points = std::max<long>(max_points, t.n); outcomes.insert(x.outcome);
